@@ -38,3 +38,205 @@ package redis
 //@   ensures accepted_command_is_in_the_batch_slot: result == nil && len(tb.cmds) == old(len(tb.cmds)) + 1 ==> deref(tb.slot) == cmdSlot
 //@   loop 1:
 //@     invariant keys_share_the_first_slot: slot == cmdSlot && (forall j int :: 0 <= j && j <= rangeindex ==> digest.SpecHashSlot(keys[1 + j]) == slot)
+
+// ---- cluster batches: replies and redirects stay with their own command (C19) ---------------
+// The node connection is an abstract FIFO: the k-th reply received answers the k-th request sent.
+//   cSent  requests written to the connection so far
+//   cRecv  replies read from the connection so far
+//@ func redisNode.getConn
+//@   trusted abstract connection pool
+//@   ensures conn: result1 == nil ==> result0 != nil
+//@ func redisNode.releaseConn
+//@   trusted abstract connection pool
+//@ func redisConn.send
+//@   trusted abstract connection: appends one request
+//@   modifies cSent
+//@   ensures counted: cSent == old(cSent) + 1
+//@ func redisConn.flush
+//@   trusted abstract connection
+//@ func redisConn.shutdown
+//@   trusted abstract connection
+//@ func redisConn.receive
+//@   trusted abstract connection: the next reply, in request order
+//@   modifies cRecv
+//@   ensures counted: cRecv == old(cRecv) + 1
+//@ func util.OpenCircuitExec.Do
+//@   inline
+
+//@ func fmt.Sprintf(format, a) (s)
+//@   trusted library contract (pure)
+//@   modifies nothing
+
+// a command handed to a node is either written to its connection or answered with an error
+// reply (which Batch.Exec / the callers report) - never with something that looks like success
+//@ func redisNode.do
+//@   arith int
+//@   properties C19
+//@   replay cluster_redirect
+//@   requires nonnil: node != nil
+//@   modifies heap, cSent, cRecv
+//@   ensures unsent_command_is_an_error_reply: result1 == nil && cSent == old(cSent) ==> hastype(result0, "common.RedisError")
+//@   ensures at_most_one_submission: cSent <= old(cSent) + 1 && cSent >= old(cSent)
+
+// ---- a redirected command is retried at the indicated node or the failure is reported ------
+//   redirect(reply)  the reply is an error reply whose text starts with MOVED or ASK
+//@ pred isMoved(reply): hastype(reply, "common.RedisError") && common.SpecRedirectClass(string(astype(reply, "common.RedisError"))) == common.KrespMove
+//@ pred isAsk(reply): hastype(reply, "common.RedisError") && common.SpecRedirectClass(string(astype(reply, "common.RedisError"))) == common.KrespAsk
+//@ pred isPlain(reply): !hastype(reply, "common.RedisError") || common.SpecRedirectClass(string(astype(reply, "common.RedisError"))) == common.KrespError
+
+// (errors.Join, fmt.Errorf: library contracts declared in config / pkg/errors)
+//@ func strings.Split(s, sep) (r)
+//@   trusted library contract
+//@   modifies nothing
+//@   ensures fresh_result: len(r) == 0 || fresh(r)
+
+// SpecErrorValued: the dynamic type of a reply implements error (uninterpreted); such a reply,
+// like a RedisError reply, is reported by common.CheckReplyError / Batch.Exec.
+func SpecErrorValued(reply interface{}) bool { return false }
+
+//@ spec SpecErrorValued abstract
+//@ pred reportedReply(reply): hastype(reply, "common.RedisError") || SpecErrorValued(reply)
+
+//@ axiom redirect_errors_exist: common.ErrMove != nil && common.ErrAsk != nil && common.ErrNil != nil
+
+//@ func Cluster.inform
+//@   trusted frame: queues a topology refresh request
+//@ func Cluster.resolveRedirectionNode
+//@   trusted abstract topology: the node object for the indicated address (known, learned by a refresh, or a one-off node)
+//@   ensures a_node_or_an_error: result1 == nil ==> result0 != nil
+//@ func Cluster.handleConnTimeout
+//@   trusted here (read, not verified): retries on another node; a still-unreachable cluster is answered with an error value
+//@   modifies heap, cSent, cRecv
+//@   ensures submitted_or_reported: result1 == nil ==> cSent > old(cSent) || reportedReply(result0)
+//@   ensures monotone: cSent >= old(cSent)
+
+//@ func Cluster.do
+//@   arith int
+//@   properties C19
+//@   opaque SpecRedirectClass
+//@   requires nonnil: cluster != nil && node != nil
+//@   modifies heap, cSent, cRecv
+//@   ensures success_means_submitted: result1 == nil ==> cSent > old(cSent) || reportedReply(result0)
+//@   ensures monotone: cSent >= old(cSent)
+
+//@ func Cluster.handleReply
+//@   arith int
+//@   properties C19
+//@   opaque SpecRedirectClass
+//@   replay cluster_redirect
+//@   requires nonnil: cluster != nil && node != nil
+//@   modifies heap, cSent, cRecv
+//@   ensures plain_reply_is_handed_back: isPlain(reply) ==> result0 == reply && result1 == nil && cSent == old(cSent)
+//@   ensures redirect_is_retried_or_reported: (isMoved(reply) || isAsk(reply)) && result1 == nil ==> cSent > old(cSent) || reportedReply(result0)
+//@   ensures error_reply_never_becomes_success: hastype(reply, "common.RedisError") && result1 == nil ==> cSent > old(cSent) || reportedReply(result0)
+//@   ensures monotone: cSent >= old(cSent)
+//@   ensures moved_without_redirect_handling_is_reported: isMoved(reply) && !old(cluster.handleMoveError) ==> result1 != nil && cSent == old(cSent)
+//@   ensures ask_without_redirect_handling_is_reported: isAsk(reply) && !old(cluster.handleAskError) ==> result1 != nil && cSent == old(cSent)
+
+//@ func Cluster.handleMove
+//@   arith int
+//@   properties C19
+//@   opaque SpecRedirectClass
+//@   ghost var mvCmd string = cmd
+//@   requires nonnil: cluster != nil
+//@   modifies heap, cSent, cRecv
+//@   assert at call resolveRedirectionNode: target_is_the_address_in_the_reply: len(fields) == 3 && addr == fields[2]
+//@   assert at call do: retried_once_on_the_indicated_node_with_the_same_command: arg1 == newNode && arg2 == mvCmd && cSent == old(cSent)
+//@   ensures success_means_resubmitted: result1 == nil ==> cSent > old(cSent) || reportedReply(result0)
+//@   ensures monotone: cSent >= old(cSent)
+
+//@ func Cluster.handleAsk
+//@   arith int
+//@   properties C19
+//@   opaque SpecRedirectClass
+//@   ghost var askCmd string = cmd
+//@   ghost var askSent mathint = 0
+//@   set askSent = cSent at call resolveRedirectionNode
+//@   requires nonnil: cluster != nil
+//@   modifies heap, cSent, cRecv
+//@   assert at call resolveRedirectionNode: target_is_the_address_in_the_reply: len(fields) == 3 && addr == fields[2]
+//@   assert at call send: asking_then_the_same_command: (cSent == askSent ==> cmd == "ASKING" && len(args) == 0) && (cSent == askSent + 1 ==> cmd == askCmd) && cSent <= askSent + 1 && arg0 == conn
+//@   ensures success_means_resubmitted: result1 == nil ==> cSent >= old(cSent) + 2
+//@   ensures monotone: cSent >= old(cSent)
+
+//@ func Batch.doBatch
+//@   arith int
+//@   properties C19
+//@   ghost var cSent mathint = 0
+//@   ghost var cRecv mathint = 0
+//@   requires nonnil: bat != nil && batch != nil && batch.node != nil && bat.cluster != nil
+//@   modifies heap, cSent, cRecv
+//@   assert at call send: requests_written_in_batch_order: 0 <= cSent && cSent < len(batch.cmds) && cmd == batch.cmds[cSent].cmd && args == batch.cmds[cSent].args
+//@   assert at call handleReply: reply_handled_with_its_own_command: 1 <= cRecv && cRecv <= len(batch.cmds) && cmd == batch.cmds[cRecv - 1].cmd && args == batch.cmds[cRecv - 1].args
+//@   loop 1:
+//@     invariant sent_prefix: 0 - 1 <= rangeindex#1 && rangeindex#1 < len(batch.cmds) && (exec.err == nil ==> cSent == rangeindex#1 + 1) && cRecv == 0
+//@   loop 2:
+//@     invariant received_prefix: 0 - 1 <= rangeindex#2 && rangeindex#2 < len(batch.cmds) && cRecv == rangeindex#2 + 1 && cSent == len(batch.cmds)
+
+// ---- a key is routed to the node the slot table names for the key's Redis slot (C19) --------
+//@ func strconv.FormatUint(i, base) (s)
+//@   trusted library contract (pure)
+//@   modifies nothing
+//@ func strconv.FormatFloat(f, fmtc, prec, bitSize) (s)
+//@   trusted library contract (pure)
+//@   modifies nothing
+
+//@ func key
+//@   arith int
+//@   properties C19
+//@   modifies nothing
+//@   ensures string_key_is_itself: hastype(arg, "string") ==> result1 == nil && result0 == asstring(arg)
+//@   ensures byte_key_is_its_bytes: hastype(arg, "[]byte") ==> result1 == nil && result0 == string(asbytes(arg))
+
+//@ func GetSlot
+//@   arith int
+//@   properties C19
+//@   modifies nothing
+//@   ensures string_key_slot: hastype(arg, "string") ==> result1 == nil && result0 == digest.SpecHashSlot(asstring(arg))
+//@   ensures byte_key_slot: hastype(arg, "[]byte") ==> result1 == nil && result0 == digest.SpecHashSlot(string(asbytes(arg)))
+
+//@ func Cluster.getNodeByKey
+//@   arith int
+//@   properties C19
+//@   requires nonnil: cluster != nil
+//@   ensures string_key_owner: hastype(arg, "string") && result1 == nil ==> result0 != nil && result0 == old(cluster.slots[digest.SpecHashSlot(asstring(arg))])
+//@   ensures byte_key_owner: hastype(arg, "[]byte") && result1 == nil ==> result0 != nil && result0 == old(cluster.slots[digest.SpecHashSlot(string(asbytes(arg)))])
+
+// ---- per-node batches keep the order of the commands put for one node (C19) ------------------
+// A Batch has at most one nodeBatch per node, so two commands for the same key (same slot, same
+// node) end up in the same nodeBatch, in the order they were put; index maps the k-th command
+// put to its nodeBatch.
+//@ pred batWF(batch *Batch): batch != nil
+//@+   && (forall i int, j int :: 0 <= i && i < j && j < len(batch.batches) ==> batch.batches[i].node != batch.batches[j].node)
+//@+   && (forall k int :: 0 <= k && k < len(batch.index) ==> 0 <= batch.index[k] && batch.index[k] < len(batch.batches))
+
+// SpecUpper is strings.ToUpper (uninterpreted).
+func SpecUpper(s string) string { return s }
+
+//@ spec SpecUpper abstract
+//@ func strings.ToUpper(s) (r)
+//@   trusted library contract (pure), upper-casing uninterpreted
+//@   modifies nothing
+//@   ensures def: r == SpecUpper(s)
+
+//@ func Cluster.ChooseNodeWithCmd
+//@   inline
+//@ func Cluster.getAllNodes
+//@   trusted abstract topology
+//@ func Batch.joinError
+//@   trusted frame: records the error, returns the error it was given
+//@   modifies tb.err
+//@   ensures same_error: result == err
+
+//@ func Batch.Put
+//@   arith int
+//@   properties C19
+//@   ghost var putCmd string = cmd
+//@   requires wf: batWF(batch) && batch.cluster != nil
+//@   requires not_a_fanout_command: SpecUpper(cmd) != "KEYS"
+//@   modifies heap
+//@   ensures wf: batWF(batch)
+//@   ensures order_of_earlier_commands_kept: len(batch.index) >= old(len(batch.index)) && (forall k int :: 0 <= k && k < old(len(batch.index)) ==> batch.index[k] == old(batch.index[k]))
+//@   ensures accepted_command_is_appended_to_its_node_batch: result == nil && len(batch.index) == old(len(batch.index)) + 1 ==> len(batch.batches[batch.index[len(batch.index) - 1]].cmds) >= 1 && batch.batches[batch.index[len(batch.index) - 1]].cmds[len(batch.batches[batch.index[len(batch.index) - 1]].cmds) - 1].cmd == putCmd
+//@   loop 2:
+//@     invariant scanning: 0 <= i#2 && i#2 <= len(batch.batches) && node != nil && batWF(batch) && batch.batches == old(batch.batches) && batch.index == old(batch.index) && (forall j int :: 0 <= j && j < i#2 ==> batch.batches[j].node != node)
